@@ -3,6 +3,7 @@ import GoSQLXModel.Driver.LspOp
 import GoSQLXModel.Driver.LintOp
 import GoSQLXModel.Driver.ScanOp
 import GoSQLXModel.Driver.ExtractOp
+import GoSQLXModel.Driver.LexOp
 /-! Dispatch table of the line-protocol driver. Each op parses its payload, runs the executable
     model and prints a canonical one-line answer. -/
 namespace GoSQLXModel.Driver
@@ -15,6 +16,7 @@ def dispatch (op payload : String) : String :=
   | "lintfix" => lintfixOp payload
   | "scan" => scanOp payload
   | "extract" => extractOp payload
+  | "lex" => lexOp payload
   | _ => "bad-op"
 
 end GoSQLXModel.Driver
